@@ -294,9 +294,11 @@ package fans
 
 //@ func (*HwMonFan).AttachFanRpmCurveData
 //@   props C13
-//@   requires hwWF(fan) && hwCfg(fan) && (curveData != nil ==> rpmDataOK(*curveData))
-//@   ensures[C13.refuse]  noData(curveData) ==> err == os.ErrInvalid && fan.MinPwm == old(fan.MinPwm) && fan.StartPwm == old(fan.StartPwm) && fan.MaxPwm == old(fan.MaxPwm) && fan.FanCurveData == old(fan.FanCurveData)
-//@   ensures[C13.accept]  !noData(curveData) ==> err == nil && fan.FanCurveData == curveData
+//@   requires hwWF(fan)
+//@   requires[C13.pre -C15 -C16] hwCfg(fan) && (curveData != nil ==> rpmDataOK(*curveData))
+//@   ensures hwWF(fan)
+//@   ensures[C13.refuse C15 C16]  noData(curveData) ==> err == os.ErrInvalid && fan.MinPwm == old(fan.MinPwm) && fan.StartPwm == old(fan.StartPwm) && fan.MaxPwm == old(fan.MaxPwm) && fan.FanCurveData == old(fan.FanCurveData)
+//@   ensures[C13.accept C15 C16]  !noData(curveData) ==> err == nil && fan.FanCurveData == curveData
 //@   ensures[C13.cfgwins] hwCfg(fan)
 //@   ensures[C13.max]     !noData(curveData) && fan.Config.MaxPwm == nil ==> isMaxOf(*curveData, hwMax(fan))
 //@   ensures[C13.startfirst] !noData(curveData) && fan.Config.StartPwm == nil && old(hwStart(fan)) >= 255 ==> isStartOf(*curveData, hwStart(fan))
@@ -327,4 +329,14 @@ package fans
 //@ func (*FileFan).UpdateFanRpmCurveValue
 //@   modifies nothing
 //@ func (*CmdFan).UpdateFanRpmCurveValue
+//@   modifies nothing
+
+//@ func (*HwMonFan).GetCurveId
+//@   ensures result == fan.Config.Curve
+//@   modifies nothing
+//@ func (*FileFan).GetCurveId
+//@   ensures result == fan.Config.Curve
+//@   modifies nothing
+//@ func (*CmdFan).GetCurveId
+//@   ensures result == fan.Config.Curve
 //@   modifies nothing
